@@ -273,10 +273,7 @@ def unit_admissible():
         for vi, (xv, tv) in enumerate(pts(cor[lab])):
             o = core.prove_valid('C17/ehep/region_%s/vertex%d:linear>=0' % (lab, vi), hy, L_.subs({x: xv, t: tv}) >= 0, goal_text='the linear function is non-negative at vertex %d of the region polygon' % vi)
             o.pop('cex_raw', None); O.append(o)
-    # the factors are positive: their (linear) denominators are non-negative at every vertex of the region concerned
-    for lab, den in (('II', t - tt), ('V', t - tt), ('IV', D * t - xtilde), ('I', t), ('II', t)):
-        for vi, (xv, tv) in enumerate(pts(cor[lab])):
-            o = core.prove_valid('C17/ehep/region_%s/vertex%d:denominator(%s)>=0' % (lab, vi, str(den).replace(' ', '')), hy, den.subs({x: xv, t: tv}) >= 0, goal_text='%s >= 0 at vertex %d of region %s' % (den, vi, lab))
-            o.pop('cex_raw', None); O.append(o)
+    # assumption (stated, not proved here): the factors are positive inside their regions (t > 0; t > ttilde in II and V; D t > xtilde in IV), which needs the window
+    # (xmax, tmax) to contain the corner points of the x-t diagram - the constructor does not validate that
     O.append(core.prove_valid('C17/ehep/rho,p_from_cs', [], sp.And(sp.Rational(16, 9) > 0, sp.Rational(16, 27) > 0), goal_text='p_rho(): density and pressure are positive multiples of cs and cs^3'))
     return res
